@@ -899,6 +899,7 @@ int cg_save_as(int fn, const char *filename, int file_type,
     }
     if (cgio_copy_file(cg->cgio, output, follow_links)) {
         cg_io_error("cgio_copy_file");
+        cgio_close_file(output);
         return CG_ERROR;
     }
     if (cgio_close_file(output)) {
